@@ -85,12 +85,10 @@ func main() {
 			phaseConcurrent(r)
 			r.Finish()
 		}
-		if c.IDSet == "long" {
-			ids, idSet = longIDs, "long"
-		}
 		tag := "replay"
-		if c.IDSet == "long" {
-			tag = "long-ids"
+		if set, ok := idSets[c.IDSet]; ok {
+			ids, idSet = set, c.IDSet
+			tag = c.IDSet + "-ids"
 		}
 		w := buildWorld(tag, c.Format, c.R, true)
 		defer w.Close()
